@@ -564,9 +564,10 @@ class Project:
 
         """
         try:
-            for d in os.listdir(self.workspace):
-                if JOB_ID_REGEX.fullmatch(d):
-                    yield d
+            with os.scandir(self.workspace) as entries:
+                for entry in entries:
+                    if JOB_ID_REGEX.fullmatch(entry.name) and entry.is_dir():
+                        yield entry.name
         except OSError as error:
             if error.errno == errno.ENOENT:
                 if os.path.islink(self.workspace):
